@@ -456,7 +456,7 @@ fn err_class(e: &str) -> String {
 }
 
 enum Outcome {
-    Dropped,
+    Dropped(String),
     Pass { m: QResult },
     Fail { fails: Vec<(String, J)>, got: Option<Vec<Row>>, m: QResult },
 }
@@ -497,7 +497,8 @@ fn judge(q: &Query, got: &[Row], m: &QResult) -> Vec<(String, J)> {
 fn run_case(db: &mut Db, tables: &BTreeMap<String, MTable>, q: &Query) -> Outcome {
     let m = match run_model(q, tables) {
         Ok(m) => m,
-        Err(MErr::Unsupported(_)) | Err(MErr::Error(_)) => return Outcome::Dropped,
+        Err(MErr::Unsupported(r)) => return Outcome::Dropped(format!("unsupported:{}", err_class(&r))),
+        Err(MErr::Error(r)) => return Outcome::Dropped(format!("model_error:{}", err_class(&r))),
     };
     match db.query(&q.sql()) {
         Ok(got) => {
@@ -509,7 +510,14 @@ fn run_case(db: &mut Db, tables: &BTreeMap<String, MTable>, q: &Query) -> Outcom
             }
         }
         Err(e) if is_panic(&e) => {
-            let what = if e.contains("total order") { "sort_total_order_violation".to_string() } else { panic_tag(&e) };
+            // stable tag: file of the panic site + message class (no line numbers)
+            let what = if e.contains("total order") {
+                "sort_total_order_violation".to_string()
+            } else {
+                let file = panic_tag(&e).split(':').next().unwrap_or("").to_string();
+                let class = if e.contains("index out of bounds") { "index_out_of_bounds".to_string() } else { err_class(&e) };
+                format!("{}:{}", file, class)
+            };
             Outcome::Fail { fails: vec![(format!("panic:{}", what), json!({"panic": e}))], got: None, m }
         }
         Err(e) => Outcome::Fail { fails: vec![(format!("unexpected_error:{}", err_class(&e)), json!({"error": e}))], got: None, m },
@@ -1268,7 +1276,7 @@ fn comparator_check(ctx: &mut Ctx) {
 
 /// the closed list of query features that enter a signature (everything else - DESC, number of keys, WHERE, column types,
 /// join / set-operation kind - stays in the violation detail; the executing mechanism is named by the plan path)
-const MECH_FEATURES: &[&str] = &["distinct", "group_by", "key:ordinal", "key:repeated_expr", "key_is:aggregate", "key_is:arith", "key_is:function", "limit", "offset"];
+const MECH_FEATURES: &[&str] = &["distinct", "key:ordinal", "key:repeated_expr", "key_is:aggregate", "key_is:arith", "key_is:function", "group_by", "limit", "offset"];
 
 const FAMILIES: &[(&str, u64)] = &[("order", 20), ("limit", 22), ("distinct", 18), ("group", 10), ("join", 10), ("setop", 10), ("pk", 5), ("limit_only", 5)];
 
@@ -1310,6 +1318,7 @@ pub fn run(a: &Args) -> i32 {
     let mut fam_counts: BTreeMap<String, u64> = BTreeMap::new();
     let mut path_counts: BTreeMap<String, u64> = BTreeMap::new();
     let mut path_fail_counts: BTreeMap<String, u64> = BTreeMap::new();
+    let mut drop_reasons: BTreeMap<String, u64> = BTreeMap::new();
     let mut check_counts: BTreeMap<String, u64> = BTreeMap::new();
     let mut base_fail: BTreeMap<String, (u64, String)> = BTreeMap::new();
     let mut sig_counts: BTreeMap<String, (u64, String, String)> = BTreeMap::new();
@@ -1387,7 +1396,10 @@ pub fn run(a: &Args) -> i32 {
             let plan = db.explain(&sql);
             let path = plan_path(&plan, &q);
             match run_case(&mut db, &tables, &q) {
-                Outcome::Dropped => ctx.count("dropped_model_undecided", 1),
+                Outcome::Dropped(r) => {
+                    ctx.count("dropped_model_undecided", 1);
+                    bump(&mut drop_reasons, &r);
+                }
                 Outcome::Pass { m } => {
                     bump(&mut fam_counts, family);
                     bump(&mut path_counts, &path);
@@ -1485,7 +1497,7 @@ pub fn run(a: &Args) -> i32 {
                             None => "null_keys_undetermined",
                         },
                         small_path.replace('/', "@"),
-                        feats.iter().filter(|f| MECH_FEATURES.contains(&f.as_str())).cloned().collect::<Vec<_>>().join("+")
+                        MECH_FEATURES.iter().filter(|f| feats.contains(**f)).cloned().collect::<Vec<_>>().join("+")
                     );
                     let first = !sig_counts.contains_key(&sig);
                     let ent = sig_counts.entry(sig.clone()).or_insert((0, small.sql(), sql.clone()));
@@ -1519,6 +1531,7 @@ pub fn run(a: &Args) -> i32 {
     ctx.extra.insert("judged_cases_by_plan_path".into(), json!(path_counts));
     ctx.extra.insert("failing_cases_by_plan_path".into(), json!(path_fail_counts));
     ctx.extra.insert("passing_cases_by_substantive_check".into(), json!(check_counts));
+    ctx.extra.insert("dropped_model_undecided_reasons".into(), json!(drop_reasons));
     let sc: BTreeMap<String, J> = sig_counts.into_iter().map(|(k, (n, s, o))| (k, json!({"count": n, "shortest_minimal_sql": s, "first_original_sql": o}))).collect();
     ctx.extra.insert("failure_signatures".into(), json!(sc));
     let bf: BTreeMap<String, J> = base_fail.into_iter().map(|(k, (n, s))| (k, json!({"count": n, "example": s}))).collect();
